@@ -32,9 +32,9 @@ import vlib
 from gen import multirun as M
 
 ID = "C10"
-PROPS = ["IsoVerif/Props/C10.lean"]
-TARGETS = ["IsoVerif.Props.C10"]
-GEN_DEPS = ["SharedState", "SampleState", "Strategies"]
+PROPS = ["IsoVerif/Props/C10.lean", "IsoVerif/Props/C10Names.lean"]
+TARGETS = ["IsoVerif.Props.C10", "IsoVerif.Props.C10Names"]
+GEN_DEPS = ["SharedState", "SampleState", "SampleNames", "Strategies"]
 LEVEL = "proof"
 RULE = ("in-process: exhaustive strategy table; all presets; seeded histories of 1-5 samples x 8 presets x 3 polyA "
         "strategies x 3 read-group options; seeded histories of 1-4 fake genes (<=4 FL paths, <=3 mono, <=3 non-FL "
@@ -45,6 +45,10 @@ RULE = ("in-process: exhaustive strategy table; all presets; seeded histories of
         "empty/default one (some transcript reported, some flag set, some cell filled)")
 TRUSTED = ["Gen/SharedState.lean + Gen/SampleState.lean: AST inventory of class-level state, DatasetProcessor fields, "
            "args assignments, reset sites (harness/translate.py); cross-checked by the trace correspondence",
+           "Gen/SampleNames.lean: the test before the positional renaming of a duplicate experiment name, read off the AST of "
+           "both description parsers (exact statement shapes, TranslationError otherwise); cross-checked by the parser "
+           "correspondence on descriptions with colliding names",
+           "os.path.join(<output>, name) maps different experiment names to different folders (names without a path separator)",
            "harness/c10_wrap.py (monkeypatch tracer, nothing inside /repo)",
            "the heuristics of a sample (assignment, intron graph, filters) are data of the model: their independence "
            "of process state is watched by the pipeline oracle, not proved"]
@@ -53,7 +57,9 @@ ASSUMPTIONS = ["polya_fraction >= threshold is compared as 1000*polya >= permill
                "never returns to the parent; pool.map returns results in submission order",
                "combined tables are compared as maps feature -> numeric cells (pandas re-formats 3.00 as 3.0 and "
                "orders rows itself); feature ids are not numeric and not NA-like strings",
-               "experiments of one invocation have distinct names and share reference and annotation"]
+               "experiments of one invocation share reference and annotation; their names need NOT be distinct or explicit: "
+               "the parser makes them distinct or exits (Props/C10Names.lean); the per-entry theorems of Props/C10.lean "
+               "keep the hypothesis of explicit distinct names"]
 
 WRAP = os.path.join(vlib.HERE, "c10_wrap.py")
 PRESETS = ["reliable", "default_pacbio", "sensitive_pacbio", "default_ont", "sensitive_ont", "fl_pacbio", "all", "assembly"]
@@ -541,6 +547,98 @@ def parse_property(kind, prefix, payload):
         shutil.rmtree(scratch, ignore_errors=True)
 
 
+# --- experiment names (audit finding G4): duplicate / missing names are renamed to <prefix><position>
+
+NAME_POOL = ["D", "D", "E", None, None, "X0", "X1", "X2", "X3", "X4"]
+
+
+def _named_yaml(names, pool, empty=()):
+    return [{"name": n, "files": [] if i in empty else [[pool[i % len(pool)], _stem(pool[i % len(pool)])]], "labels": None,
+             "illumina": None} for i, n in enumerate(names)]
+
+
+def _named_list(names, pool, empty=(), lead=False):
+    lines = [{"files": [[pool[-1], _stem(pool[-1])]], "label": None}] if lead else []
+    for i, n in enumerate(names):
+        lines.append({"header": n or ""})
+        if i not in empty:
+            lines.append({"files": [[pool[i % len(pool)], _stem(pool[i % len(pool)])]], "label": None})
+    return lines
+
+
+def gen_name_cases(ctx):
+    """descriptions OUTSIDE reading rule (c): duplicate and missing names, drawn so that the positional name
+    <prefix><position> a duplicate is renamed to is often an explicit name or an earlier generated one (prefix X)"""
+    rng = ctx.rng
+    pool = ["/data/run%d/reads_%d.bam" % (i % 3, i) for i in range(8)]
+    fixed = [["X2", "D", "D"], ["D", "X2", "D"], ["X3", "D", "D", "D"], ["D", "D", "X1"], [None, "X0"], ["X1", None],
+             ["D", "D"], ["D", "D", "D"], [None, None, "X0", "X1"], ["X2", "D", None], ["X", "X", "X1"]]
+    cases = []
+    for names in fixed:
+        cases.append(("yaml", "X", _named_yaml(names, pool)))
+        cases.append(("list", "X", _named_list(names, pool)))
+    cases.append(("yaml", "X", _named_yaml(["X2", "D", "D", "D"], pool, empty=(2,))))      # the renamed duplicate has no files
+    cases.append(("list", "X", _named_list(["X2", "D", "D"], pool, lead=True)))             # files before the first header
+    cases.append(("list", "X", _named_list(["X", "X3", "D", "D"], pool, lead=True)))
+    for _ in range(40 if ctx.tier == "quick" else 400):
+        k = rng.randint(2, 5)
+        names = [rng.choice(NAME_POOL) for _ in range(k)]
+        empty = tuple(i for i in range(k) if rng.random() < 0.12)
+        if rng.random() < 0.5:
+            entries = _named_yaml(names, pool, empty)
+            if rng.random() < 0.3:
+                entries[rng.randrange(k)]["labels"] = ["lab"]
+            cases.append(("yaml", "X", entries))
+        else:
+            cases.append(("list", "X", _named_list(names, pool, empty, lead=rng.random() < 0.25)))
+    return cases
+
+
+def _own_blocks(kind, payload, prefix):
+    """the pieces of a description that make one experiment each (entries / header + file lines with at least one file)"""
+    if kind == "yaml":
+        return [[e] for e in payload if e["files"]]
+    blocks, cur = [], []
+    for l in payload:
+        if "header" in l:
+            if cur:
+                blocks.append(cur)
+            cur = []
+        else:
+            cur.append(l)
+    if cur:
+        blocks.append(cur)
+    return blocks
+
+
+def names_property(kind, prefix, payload):
+    """in-process, real parser, ANY names: when the parser accepts a description (no exit) the experiment names - and with
+    them the output folders <out>/<name> - are pairwise distinct, and every experiment holds the files, labels and
+    short reads of its own entry (what the description with this experiment alone, under the name it got, parses to)"""
+    scratch = tempfile.mkdtemp(prefix="isoverif_c10np_")
+    try:
+        joint = impl_parse(scratch, kind, prefix, payload)
+        if vlib.is_err(joint):
+            return None                               # loud: the user is told to change the name
+        names = [x["name"] for x in joint]
+        dup = sorted(set(n for n in names if names.count(n) > 1))
+        if dup:
+            return "experiments %s: the name %s is given to %d experiments (one output folder)" % (names, dup[0], names.count(dup[0]))
+        blocks = _own_blocks(kind, payload, prefix)
+        if len(blocks) != len(joint):
+            return "%d experiments with files in the description, %d parsed" % (len(blocks), len(joint))
+        for b, x in zip(blocks, joint):
+            if kind == "yaml":
+                alone = impl_parse(scratch, kind, prefix, [dict(b[0], name=x["name"])])
+            else:
+                alone = impl_parse(scratch, kind, prefix, [{"header": x["name"]}] + b)
+            if vlib.is_err(alone) or alone != [x]:
+                return "experiment %s: in the joint description %s, its own entry alone %s" % (x["name"], x, alone)
+        return None
+    finally:
+        shutil.rmtree(scratch, ignore_errors=True)
+
+
 def strip_private(x):
     if isinstance(x, dict):
         return {k: strip_private(v) for k, v in x.items() if not k.startswith("_")}
@@ -1021,7 +1119,9 @@ def correspondence(ctx):
             elif any(x not in ("noninformative", "dropped") for x in io):
                 ctx.mark_nontrivial(["load_chr", c])
         # 3c. the description parsers
-        pcases = gen_parse_cases(ctx)
+        ctx.extra["name_rule_of_source"] = ctx.driver.run([vlib.req("C10.name_rule_of_source")])[0]
+        ncases = gen_name_cases(ctx)
+        pcases = gen_parse_cases(ctx) + ncases
         outs = ctx.driver.run([vlib.req("C10.parse_yaml", prefix=pf, entries=pl) if kind == "yaml"
                                else vlib.req("C10.parse_list", prefix=pf, lines=pl) for kind, pf, pl in pcases])
         for (kind, pf, pl), mo in zip(pcases, outs):
@@ -1034,6 +1134,10 @@ def correspondence(ctx):
             ctx.traces_validated += 1
             if vlib.is_err(mo):
                 ctx.count("model_error")
+            given = [e["name"] for e in pl] if kind == "yaml" else [l["header"] for l in pl if "header" in l]
+            renamed = not vlib.is_err(mo) and any(x["name"] not in given for x in mo)
+            if renamed:
+                ctx.count("parse:renamed_by_position")
             if not vlib.same(mo, io):
                 ctx.disagree("parse_" + kind, {"kind": kind, "prefix": pf, "payload": pl}, mo, io)
             elif not vlib.is_err(mo) and len(mo) > 1:
@@ -1117,6 +1221,112 @@ def check_plan(ctx, plan, only=None):
     return n_fail
 
 
+# pipeline runs whose description names collide / repeat (audit finding G4)
+NAMES_PLAN = {"id": "dupnames", "world_off": 8, "cfg": {"data_type": "nanopore"},
+              # (names given in the description for the experiments K, L, M; prefix X)
+              "descs": [(["X2", "D", "D"], ["yaml", "list"]), (["D", "D"], ["yaml"])], "threads": 1}
+
+
+def names_plan(ctx):
+    s = ctx.seed
+    E = lambda name, seed, tails, unm: {"name": name, "seed": seed, "tails": tails, "unmapped": unm, "files": 1}
+    return dict(NAMES_PLAN, world=s % 1000 + NAMES_PLAN["world_off"],
+                specs=[E("K", s + 21, 0.5, 1), E("L", s + 22, 0.5, 0), E("M", s + 23, 0.5, 2)])
+
+
+def _write_named_description(path, mode, ids, names, bams):
+    with open(path, "w") as f:
+        if mode == "list":
+            for i, n in zip(ids, names):
+                f.write("#%s\n" % n)
+                for b in bams[i]:
+                    f.write("%s\n" % b)
+        else:
+            import yaml
+            yaml.safe_dump([{"data format": "bam"}] + [{"name": n, "long read files": list(bams[i])} for i, n in zip(ids, names)], f)
+
+
+def _parsed_names(path, mode, prefix):
+    """the real parser (in-process) on a description file -> experiment names, or None when it exits"""
+    vlib.repo_on_path()
+    import contextlib
+    import io
+    from src.input_data_storage import InputDataStorage
+    _quiet()
+    args = SimpleNamespace(fastq=None, bam=None, fastq_list=None, bam_list=path if mode == "list" else None, read_assignments=None,
+                           yaml=path if mode == "yaml" else None, prefix=prefix, labels=None, output="/nonexistent", illumina_bam=None)
+    try:
+        with contextlib.redirect_stdout(io.StringIO()):
+            return [x.prefix for x in InputDataStorage(args).samples]
+    except SystemExit:
+        return None
+
+
+def check_names_plan(ctx, plan, only=None):
+    """descriptions with repeated names on the real pipeline: either the run stops in the parser (exit, message) or
+    every experiment's folder <out>/<name it got> holds what the stand-alone run of THAT experiment under that name writes"""
+    lab = LABS.get(plan)
+    cfg = plan["cfg"]
+    ids = [sp["name"] for sp in plan["specs"]]
+    jobs = []
+    for names, modes in plan["descs"]:
+        for mode in modes:
+            if only and (list(only[0]) != list(names) or only[1] != mode):
+                continue
+            out = lab._out("names_%s_%s" % (mode, "_".join(names)))
+            desc = out + (".txt" if mode == "list" else ".yaml")
+            use = ids[:len(names)]
+            _write_named_description(desc, mode, use, names, lab.bams)
+            a = ["--threads", str(plan["threads"]), "--bam_list" if mode == "list" else "--yaml", desc, "-p", "X"] + M.common_args(lab.paths, cfg)
+            jobs.append({"out": out, "args": a, "home": out + "_home", "given": list(names), "ids": use, "mode": mode,
+                         "parsed": _parsed_names(desc, mode, "X")})
+    singles = {}
+    for j in jobs:
+        if j["parsed"] is not None and len(j["parsed"]) == len(j["ids"]):
+            for i, n in zip(j["ids"], j["parsed"]):
+                if (i, n) not in singles:
+                    out = lab._out("single_%s_as_%s" % (i, n))
+                    singles[(i, n)] = {"out": out, "home": out + "_home",
+                                       "args": ["--threads", "1", "--bam"] + lab.bams[i] + ["-p", n] + M.common_args(lab.paths, cfg)}
+    M.run_jobs(list(singles.values()) + jobs)
+    n_fail = 0
+    for j in jobs:
+        key = {"names_plan": plan["id"], "given": j["given"], "mode": j["mode"], "parsed": j["parsed"]}
+        ctx.count("oracle:named_joint_runs")
+        if j["parsed"] is None:
+            ctx.count("oracle:named_joint_runs_parser_exit")
+            if j["rc"] == 0:
+                ctx.fail("joint_run_ignores_parser_exit", key, "the parser exits on this description but the pipeline run returned 0")
+                n_fail += 1
+            continue
+        if j["rc"] != 0:
+            ctx.fail("joint_run_crashes", key, "rc=%s %s" % (j["rc"], j["log"][-500:]))
+            n_fail += 1
+            continue
+        if len(set(j["parsed"])) != len(j["parsed"]):
+            folders = sorted(x for x in os.listdir(j["out"]) if os.path.isdir(os.path.join(j["out"], x)))
+            ctx.fail("experiment_names_collide", key, "names in the description %s -> experiments %s; rc 0, output folders %s"
+                     % (j["given"], j["parsed"], folders))
+            n_fail += 1
+        for i, n in zip(j["ids"], j["parsed"]):
+            sj = singles.get((i, n))
+            if sj is None or sj.get("rc") != 0:
+                ctx.notes.append("stand-alone run of %s as %s failed" % (i, n))
+                continue
+            diffs = M.compare_experiment(sj["out"], j["out"], n)
+            ctx.count("oracle:experiment_comparisons")
+            if diffs:
+                ctx.fail("experiment_folder_holds_other_outputs", dict(key, experiment=i, name=n),
+                         "experiment %s (named %s): %s" % (i, n, "; ".join("%s: %s" % d for d in diffs[:3])))
+                n_fail += 1
+        if len(set(j["parsed"])) == len(j["parsed"]) and len(j["parsed"]) > 1:
+            probs = M.check_combined(j["out"], j["parsed"])
+            if probs:
+                ctx.fail("combined_table_wrong", key, "; ".join("%s: %s" % p for p in probs[:4]))
+                n_fail += 1
+    return n_fail
+
+
 def flag_property(ctx, case):
     """in-process: the flags a sample gets in a history equal the flags it gets alone (same command line)"""
     preset, polya, rg, samples = case
@@ -1177,6 +1387,10 @@ def oracle(ctx, disagreements, broken):
                 r = parse_property(inp["kind"], inp["prefix"], inp["payload"])
                 if r:
                     ctx.fail("parsed_sample_depends_on_other_entries", {"parse_case": [inp["kind"], inp["prefix"], inp["payload"]]}, r)
+            if d["op"] in ("parse_yaml", "parse_list") and isinstance(inp, dict):
+                r = names_property(inp["kind"], inp["prefix"], inp["payload"])
+                if r:
+                    ctx.fail("experiment_names_collide", {"names_case": [inp["kind"], inp["prefix"], inp["payload"]]}, r)
             if d["op"] == "combine_table" and isinstance(inp, dict):
                 r = combine_property(inp["full"], inp["tables"])
                 if r:
@@ -1201,13 +1415,21 @@ def oracle(ctx, disagreements, broken):
             if r:
                 ctx.fail("parsed_sample_depends_on_other_entries", {"parse_case": [kind, pf, pl]}, r)
                 break
+        seen_kinds = set()
+        for kind, pf, pl in gen_name_cases(ctx):
+            r = names_property(kind, pf, pl)
+            ctx.count("oracle:descriptions_any_names")
+            if r and kind not in seen_kinds:            # one report per parser
+                seen_kinds.add(kind)
+                ctx.fail("experiment_names_collide", {"names_case": [kind, pf, pl]}, r)
         for f, t in gen_tables(ctx)[:40]:
             r = combine_property(f, t)
             ctx.count("oracle:combine_tables")
             if r:
                 ctx.fail("combined_table_wrong", {"combine_case": [f, t]}, r)
                 break
-        # 3. the real pipeline
+        # 3. the real pipeline; first the descriptions with repeated names
+        check_names_plan(ctx, names_plan(ctx))
         order = seeded_plans + [p for p in plans if p not in seeded_plans]
         for pid in order:
             if ctx.tier == "quick" and ctx.elapsed() > 150 and pid not in seeded_plans:
@@ -1232,6 +1454,12 @@ def replay(ctx, failure):
             return parse_property(*inp["parse_case"]) is not None
         if "combine_case" in inp:
             return combine_property(inp["combine_case"][0], inp["combine_case"][1]) is not None
+        if "names_case" in inp:
+            return names_property(*inp["names_case"]) is not None
+        if "names_plan" in inp:
+            before = len(ctx.failures)
+            check_names_plan(ctx, names_plan(ctx), only=(inp["given"], inp["mode"]))
+            return len(ctx.failures) > before
         plan = {"id": "replay_" + str(inp.get("plan")), "world": inp["world"], "chroms": inp.get("chroms", 2), "specs": inp["specs"],
                 "cfg": inp["cfg"], "orders": "all", "threads": [inp["threads"]], "yaml_orders": 0}
         before = len(ctx.failures)
